@@ -70,12 +70,12 @@ def pGetRes : P (Option V) := do
   | "err" => pure none
   | _ => failure
 
-def checkBlock : P (Option String) := do
+def checkBlock : P (Option String × List (Option V)) := do
   let at_ ← tok
   if at_ != "@" then failure
   let rs ← c18Paths.mapM fun _ => do let t ← pOptV; let g ← pGetRes; pure (t, g)
   let rootsTok ← tok
-  let _ ← c18Names.mapM fun _ => pOptV
+  let ctrs ← c18Names.mapM fun _ => pOptV
   let roots := ((rootsTok.drop 1).toString.splitOn ",").filter (· ≠ "")
   -- law 1: failing and optional lookup agree
   let bad1 := rs.any fun (t, g) => match t, g with
@@ -84,15 +84,41 @@ def checkBlock : P (Option String) := do
     | _, _ => true
   -- law 2: roots are exactly the names that resolve
   let bad2 := (c18Names.zip (rs.take 2)).any fun (k, (t, _)) => (roots.contains (hexOfStr k)) != t.isSome
-  pure (if bad1 then some "get-tryget-agree" else if bad2 then some "roots-exact" else none)
+  pure (if bad1 then some "get-tryget-agree" else if bad2 then some "roots-exact" else none, ctrs)
 
-partial def checkBlocks : P (Option String) := do
+/-- all blocks: the first violated state-local law, and the counters seen in every block -/
+partial def checkBlocks : P (Option String × List (List (Option V))) := do
   match (← get) with
-  | [] => pure none
+  | [] => pure (none, [])
   | _ => do
-    match (← checkBlock) with
-    | some l => pure (some l)
-    | none => checkBlocks
+    let (l, c) ← checkBlock
+    match l with
+    | some l => pure (some l, [c])
+    | none => do
+      let (l', cs) ← checkBlocks
+      pure (l', c :: cs)
+
+/-- law 3, across the whole history: counters live in ONE place shared by all layers — after
+`set_index k v` every layer, at any depth and on either side of a sandboxed layer, reads `v` for `k`
+until it is set again; pushing and dropping layers never changes a counter -/
+def specCounters (ops : List SOp) : List (List (Option V)) :=
+  let step (m : List (Str × V)) (op : SOp) : List (Str × V) :=
+    match op with
+    | .setIndex k v => (k, v) :: m.filter (fun kv => kv.1 != k)
+    | _ => m
+  let rec go (m : List (Str × V)) : List SOp → List (List (Str × V))
+    | [] => [m]
+    | op :: r => m :: go (step m op) r
+  (go [] ops).map fun m => c18Names.map fun k => (m.find? (fun kv => kv.1 == k)).map (·.2)
+
+def sameCtr (a b : Option V) : Bool :=
+  match a, b with
+  | none, none => true
+  | some x, some y => x.same y
+  | _, _ => false
+
+def countersShared (ops : List SOp) (seen : List (List (Option V))) : Bool :=
+  (seen.zip (specCounters ops)).all fun (a, b) => a.length == b.length && (a.zip b).all fun (x, y) => sameCtr x y
 
 def stackOp (args : List String) : String :=
   let p : P (String × Obj × List SOp) := do
@@ -104,9 +130,10 @@ def stackOp (args : List String) : String :=
   | some ((kind, base, ops), obs) =>
     if obs == ["PANIC"] then "specfail " ++ kind ++ " law=no-panic" else
     match run checkBlocks obs with
-    | some (some law, _) => "specfail " ++ kind ++ " law=" ++ law
+    | some ((some law, _), _) => "specfail " ++ kind ++ " law=" ++ law
     | none => "bad-op stack-observation"
-    | some (none, _) =>
+    | some ((none, seen), _) =>
+      if !countersShared ops seen then "specfail " ++ kind ++ " law=counters-shared-by-all-layers" else
       let m := simulate (Rt.build base).layers ops
       if m == obs then "ok " ++ kind
       else "diff " ++ kind ++ " model=" ++ " ".intercalate m
